@@ -39,6 +39,9 @@ type c05Case struct {
 	Launching int
 	// BusyOut: part of the load runs on the cordoned / force-tainted nodes (it still counts as requests)
 	BusyOut bool
+	// Both: nodes carrying the force-removal taint AND the escalator taint (force-removal wins: they are
+	// not untaint candidates)
+	Both int
 	// Fleet: the group scales through CreateFleet + AttachInstances (launch template set)
 	Fleet bool
 }
@@ -222,6 +225,7 @@ func c05Mixed(p c05Case) *h.Scenario {
 			add(p.U, sim.NodeOpt{})
 			add(p.Tn, sim.NodeOpt{TaintAge: dp(0)})
 			add(p.Fn, sim.NodeOpt{ForceTaint: true})
+			add(p.Both, sim.NodeOpt{ForceTaint: true, TaintAge: dp(0)})
 			a.Desired += int64(p.Launching)
 			total := int64(p.T) * 10 * int64(p.U+p.Need)
 			if p.BusyOut {
@@ -305,6 +309,16 @@ func C05FaultScenarios(tier string) []*h.Scenario {
 				inner(hh)
 				hh.W.Nodes[0].CreationTimestamp.Time = hh.W.Nodes[0].CreationTimestamp.Add(-36 * time.Hour)
 			}
+			out = append(out, s)
+		}
+	}
+	// three empty force-tainted nodes are removed earlier in the scan, with every terminate call failing
+	for u := 1; u <= 2; u++ {
+		for need := 1; need <= 2; need++ {
+			p := c05Case{T: 70, U: u, Fn: 3, Need: need, EndToEnd: true, C: 1000, M: 4 << 30}
+			s := c05Mixed(p)
+			s.Name = fmt.Sprintf("c05.mixed-removal-faults.U%dN%d", u, need)
+			s.FaultOps = map[string]bool{sim.OpTerminate: true}
 			out = append(out, s)
 		}
 	}
@@ -442,6 +456,23 @@ func c05Grid(t *testing.T, tier string, shard, shards int, c *h.Collector) {
 								}
 							}
 						}
+					}
+				}
+			}
+		}
+	}
+	// nodes carrying both taints next to the untainted ones; three empty force-tainted nodes whose
+	// removal fails part-way (explored below with every terminate call failing)
+	if shard == 0 {
+		for u := 1; u <= 3; u++ {
+			for need := 1; need <= 3; need++ {
+				for _, tn := range []int{0, 1} {
+					p := c05Case{T: 70, U: u, Tn: tn, Both: 1, Need: need, EndToEnd: true, C: 1000, M: 4 << 30}
+					s := c05Mixed(p)
+					s.Monitors = func() []h.Monitor { return []h.Monitor{NewDecisions()} }
+					hh := gridCase(t, c, s, p)
+					for _, k := range seenKeys(hh) {
+						c.Nontrivial(fmt.Sprintf("both/%d/%d/%d/%s", u, tn, need, k))
 					}
 				}
 			}
